@@ -1,12 +1,14 @@
 import OsacaVerif.Driver.Proto
 import OsacaVerif.Driver.C12
 import OsacaVerif.Driver.C01
+import OsacaVerif.Driver.C07
 open OsacaVerif OsacaVerif.Proto
 
 /-- one handler per property module; the first that recognises the op answers -/
 def handlers : List (Req → Option String) := [
   Driver.C12.handle,
-  Driver.C01.handle
+  Driver.C01.handle,
+  Driver.C07.handle
 ]
 
 def dispatch (r : Req) : String :=
